@@ -75,6 +75,7 @@ func (t *table) processWALInserts() {
 		if err != nil {
 			t.db.Panic(fmt.Errorf("Unable to read from WAL: %v", err))
 		}
+		verifRead(t, t.wal.Offset())
 		in <- &walRead{data, t.wal.Offset(), 0}
 	}
 }
